@@ -69,6 +69,53 @@ def make_claim(expr, env, result, src):
             "haslo": result.lo is not None, "lo": result.lo or 0, "hashi": result.hi is not None, "hi": result.hi or 0}
 
 
+def exb(e, names):
+    """boolean structure of an assertion -> spec record (IndexExpr!EvalB)"""
+    from exo.core.LoopIR import LoopIR
+    if isinstance(e, LoopIR.Const) and isinstance(e.val, bool):
+        return {"k": "cb", "v": e.val}
+    if isinstance(e, LoopIR.BinOp):
+        op = str(e.op)
+        if op in ("and", "or"):
+            return {"k": op, "l": exb(e.lhs, names), "r": exb(e.rhs, names)}
+        if op in ("<", ">", "<=", ">=", "=="):
+            return {"k": "cmp", "op": op, "l": ex(e.lhs, names), "r": ex(e.rhs, names)}
+    raise CantExport()
+
+
+def arg_claims(ir, src):
+    """claims of arg_range_analysis(ir, arg, fast=False) for every index/size argument of LoopIR.proc `ir`"""
+    from exo.core.LoopIR import T
+    from exo.rewrite.range_analysis import arg_range_analysis
+    out = []
+    ctl = [a for a in ir.args if a.type.is_indexable()]
+    if not ctl or len(ctl) > 3:
+        return out
+    names = {}
+    preds = []
+    for pr in ir.preds:
+        try:
+            preds.append(exb(pr, names))
+        except CantExport:
+            return out  # an assertion outside the fragment: its admissible set is unknown to the oracle
+    for a in ctl:
+        names.setdefault(repr(a.name), a.name)
+    if len(names) > 3:
+        return out
+    kinds = {repr(a.name): a.type for a in ir.args}
+    envj = []
+    for rn in sorted(names):
+        size = kinds.get(rn) == T.size
+        envj.append({"n": rn, "haslo": True, "lo": 1 if size else -6, "hashi": True, "hi": 18 if size else 18})
+    for a in ctl:
+        lo, hi = arg_range_analysis(ir, a, fast=False)
+        out.append({"kind": "argrange", "src": src, "text": f"{ir.name}.{a.name} under {[str(p) for p in ir.preds]}",
+                    "e": {"k": "v", "n": repr(a.name)}, "e2": {"k": "v", "n": repr(a.name)}, "base": {"k": "c", "v": 0},
+                    "preds": preds, "env": envj, "w": 12,
+                    "haslo": lo is not None, "lo": lo or 0, "hashi": hi is not None, "hi": hi or 0})
+    return out
+
+
 def install_recorder(log, tag):
     """wrap exo.rewrite.range_analysis.index_range_analysis everywhere it is bound"""
     import exo.rewrite.range_analysis as ra
@@ -127,6 +174,24 @@ def _job(job, emit):
             finally:
                 signal.alarm(0)
 
+        # (d) ranges of arguments derived from assertions: narrowed variants first (add_assertion / partial_eval keep the
+        #     argument symbols), then the procedure itself - a result must depend on this procedure's assertions only;
+        #     done before anything else has analysed this procedure in this process
+        pa = p.INTERNAL_proc()
+        variants = []
+        for a in pa.args:
+            if a.type.is_indexable():
+                lits = {2, 5}
+                for pr_ in pa.preds:
+                    for tok in __import__("re").findall(r"-?\d+", str(pr_)):
+                        lits |= {int(tok) - 1, int(tok) + 1}
+                for pred in [f"{a.name} <= {c}" for c in sorted(lits) if c >= 1][:6] + [f"{a.name} >= 3"]:
+                    q = guarded("add_assertion", lambda pred=pred: p.add_assertion(pred))
+                    if q is not None:
+                        variants.append(q)
+        for q in variants + [p]:
+            cl = guarded("arg_range", lambda q=q: arg_claims(q.INTERNAL_proc(), "arg_range_analysis"))
+            log[0:0] = cl or []
         # (a) internal uses: compile, simplify, normalisation through divide/cut/shift + simplify, folding
         guarded("compile", lambda: compile_procs_to_strings([p], "c13.h"))
         guarded("simplify", lambda: S.simplify(p))
